@@ -46,8 +46,19 @@ func c15StartCLI(root string, cfg c15Cfg, st *c15State) (*c15Env, error) {
 	addr := fmt.Sprintf("127.0.0.1:%d", port)
 	args := []string{"--digest", "sha256"}
 	if cfg.Kind == "chunk" {
-		args = append(args, "chunk-server", "-s", filepath.Join(root, "store"), "-l", addr,
-			fmt.Sprintf("--skip-verify-write=%v", cfg.SkipVerifyWrite), "--skip-verify-read=false")
+		args = append(args, "chunk-server", "-s", filepath.Join(root, "store"), "-l", addr)
+		switch {
+		case !cfg.Plumbing:
+			args = append(args, fmt.Sprintf("--skip-verify-write=%v", cfg.SkipVerifyWrite), "--skip-verify-read=false")
+		default:
+			// plumbing cases: each flag is given only when it differs from its default (true)
+			if !cfg.SkipVerifyWrite {
+				args = append(args, "--skip-verify-write=false")
+			}
+			if cfg.SkipVerifyRead != "default" {
+				args = append(args, "--skip-verify-read="+cfg.SkipVerifyRead)
+			}
+		}
 		if !cfg.Compressed {
 			args = append(args, "-u")
 		}
@@ -59,9 +70,15 @@ func c15StartCLI(root string, cfg c15Cfg, st *c15State) (*c15Env, error) {
 	}
 	// the value comes from --authorization (chunk server) or from DESYNC_HTTP_AUTH (index server)
 	envAuth := ""
-	if cfg.Auth != "" && cfg.Kind == "chunk" {
+	switch {
+	case cfg.Plumbing:
+		if cfg.AuthFlag != "" {
+			args = append(args, "--authorization", cfg.AuthFlag)
+		}
+		envAuth = cfg.AuthEnv
+	case cfg.Auth != "" && cfg.Kind == "chunk":
 		args = append(args, "--authorization", cfg.Auth)
-	} else {
+	default:
 		envAuth = cfg.Auth
 	}
 	cmd := exec.Command(bin, args...)
@@ -228,4 +245,141 @@ func c15ReplayCLI(a vh.Args, o *vh.Oracle, r *vh.Result, c *c15Case) error {
 	}
 	defer e.stop()
 	return c15DoCLI(a, o, r, e, c)
+}
+
+// ---------- flag / environment plumbing of the binaries (quick and thorough) ----------
+//
+// `desync chunk-server` / `index-server` child processes whose expected Authorization value
+// comes from --authorization, only from DESYNC_HTTP_AUTH, or from both (the flag wins), and
+// chunk servers with every combination of --skip-verify-write / --skip-verify-read (each flag
+// given only when it differs from its default).  The configuration the predicate judges by is
+// the documented meaning of the options, computed here and not by the binary.
+
+func c15PlumbingConfigs() []c15Cfg {
+	const s1, s2 = "Bearer s3cr3t-Token", "Basic dXNlcjpwYXNz"
+	mk := func(kind, flag, env string, wr, svw bool, svr string, comp bool) c15Cfg {
+		auth := flag
+		if auth == "" {
+			auth = env
+		}
+		return c15Cfg{Kind: kind, Auth: auth, Writable: wr, SkipVerifyWrite: svw, Compressed: comp, StoreWritable: true,
+			Plumbing: true, AuthFlag: flag, AuthEnv: env, SkipVerifyRead: svr}
+	}
+	return []c15Cfg{
+		// authorization only through the environment / flag and environment / flag only
+		mk("chunk", "", s1, true, false, "default", true),
+		mk("chunk", s1, s2, true, false, "default", true),
+		mk("chunk", "", s2, false, true, "default", false),
+		mk("index", "", s1, true, false, "default", false),
+		mk("index", s2, s1, true, false, "default", false),
+		mk("index", s1, "", false, false, "default", false),
+		// which flag governs which direction: write verification x read verification
+		mk("chunk", "", "", true, false, "default", true),
+		mk("chunk", "", "", true, false, "false", true),
+		mk("chunk", "", "", true, true, "default", true),
+		mk("chunk", "", "", true, true, "false", true),
+		mk("chunk", "", "", true, false, "default", false),
+		mk("chunk", "", "", true, true, "false", false),
+	}
+}
+
+func c15Plumbing(a vh.Args, o *vh.Oracle, r *vh.Result, rng *vh.Rand) error {
+	if os.Getenv("VH_DESYNC") == "" {
+		r.Note("VH_DESYNC not set: CLI plumbing cases skipped")
+		return nil
+	}
+	for n, cfg := range c15PlumbingConfigs() {
+		st := c15MakeState(a.Seed)
+		e, err := c15StartCLI(filepath.Join(a.Work, fmt.Sprintf("plumb%d", n)), cfg, st)
+		if err != nil {
+			return err
+		}
+		if e == nil {
+			return nil
+		}
+		err = c15PlumbingRequests(a, o, r, e)
+		e.stop()
+		if err != nil {
+			return err
+		}
+	}
+	return nil
+}
+
+func c15PlumbingRequests(a vh.Args, o *vh.Oracle, r *vh.Result, e *c15Env) error {
+	cfg, st := e.cfg, e.state
+	do := func(method, target, desc string, hdrs []string, body []byte) error {
+		c := &c15Case{Cfg: cfg, Level: "cli", StateSeed: a.Seed, Method: method, Target: target, Headers: hdrs, BodyHex: vh.Hex(body), Desc: "plumbing-" + desc}
+		r.Dist("plumbing:" + desc)
+		return c15DoCLI(a, o, r, e, c)
+	}
+	// header variants: none, wrong, the documented value, and - when both are given - the loser
+	type hv struct {
+		d string
+		h []string
+	}
+	hvs := []hv{{"no-header", nil}, {"wrong", []string{"Authorization: Bearer wrong"}}}
+	if cfg.Auth != "" {
+		hvs = append(hvs, hv{"right", []string{"Authorization: " + cfg.Auth}})
+	}
+	if cfg.AuthFlag != "" && cfg.AuthEnv != "" {
+		hvs = append(hvs, hv{"env-value-while-flag-given", []string{"Authorization: " + cfg.AuthEnv}})
+	}
+	var right []string
+	if cfg.Auth != "" {
+		right = []string{"Authorization: " + cfg.Auth}
+	}
+	if cfg.Kind == "index" {
+		newIdx := c15Index(vh.NewRand(a.Seed+78), 3)
+		for _, h := range hvs {
+			for _, q := range [][2]string{{"GET", "/a.caibx"}, {"HEAD", "/a.caibx"}, {"PUT", "/new.caibx"}, {"PUT", "/a.caibx"}} {
+				if err := do(q[0], q[1], "auth-"+h.d, h.h, newIdx); err != nil {
+					return err
+				}
+			}
+		}
+		return nil
+	}
+	ext := ""
+	if cfg.Compressed {
+		ext = ".cacnk"
+	}
+	p := func(id string) string { return "/" + id[:4] + "/" + id + ext }
+	present := c15IDStr(st.chunks[2])
+	other := c15IDStr(st.chunks[1])
+	fresh := c15IDStr(st.newChunk)
+	corrupt := c15IDStr([]byte("the name of the corrupt chunk"))
+	bodies := c15Bodies(st, st.newChunk, cfg.Compressed) // match, mismatch (= chunks[1]), garbage, empty, wrong-encoding
+	for _, h := range hvs {
+		if err := do("GET", p(present), "auth-"+h.d, h.h, nil); err != nil {
+			return err
+		}
+		if err := do("HEAD", p(present), "auth-"+h.d, h.h, nil); err != nil {
+			return err
+		}
+		if err := do("PUT", p(fresh), "auth-"+h.d, h.h, bodies[0][1]); err != nil {
+			return err
+		}
+	}
+	// uploads that must be refused when write verification is on, under a new and under an existing id
+	for _, b := range bodies {
+		for _, id := range []string{fresh, present, other} {
+			if err := do("PUT", p(id), "upload-"+string(b[0]), right, b[1]); err != nil {
+				return err
+			}
+			// the good chunk is still what it was
+			if err := do("GET", p(present), "read-after-upload", right, nil); err != nil {
+				return err
+			}
+		}
+	}
+	// reads: a good chunk and the one whose content does not match its name
+	for _, id := range []string{present, other, corrupt, fresh} {
+		for _, m := range []string{"GET", "HEAD"} {
+			if err := do(m, p(id), "read", right, nil); err != nil {
+				return err
+			}
+		}
+	}
+	return nil
 }
